@@ -1,3 +1,6 @@
 import PydapModel.Generated.Tables
+import PydapModel.Heap
+import PydapModel.Quote
 import PydapModel.Sexp
 import PydapModel.Slice
+import PydapModel.Tree
